@@ -15,6 +15,8 @@ structure SigLaws (S : Sig) : Prop where
   calc_len : ∀ priv pub, S.pubkeyCalc priv = (.ok, pub) → pub.length = 2 * priv.length
   calc_keypair : ∀ priv pub, S.pubkeyCalc priv = (.ok, pub) → S.keypairVal priv pub = .ok
   keypair_pub : ∀ priv pub, S.keypairVal priv pub = .ok → S.pubkeyVal pub = .ok ∧ pub.length = 2 * priv.length
+  /-- btokPubkeyVal accepts only the four key lengths (its btokParamsStd(len / 2) step) -/
+  pubVal_len : ∀ pub, S.pubkeyVal pub = .ok → pubkeyLenOk pub.length = true
   /-- btokSign writes sigLenOfPriv octets -/
   sign_len : ∀ body priv sig, S.sign body priv = (.ok, sig) → sig.length = sigLenOfPriv priv.length
   /-- COMPLETENESS: a signature made with the private key of a valid pair verifies under its public key -/
